@@ -2,6 +2,7 @@ import Pm.Signal
 import Pm.Dev2Fd
 import Pm.Dev2Timer
 import Pm.WalkProof
+import Pm.StdioCli
 /-! # C20 — no resource leaks: descriptors and coprocess children
 
 Scope: the connection layer of one device (`device.c:_connect/_disconnect/_reconnect/_handle_ready_device/
@@ -488,5 +489,33 @@ example : (cliWorld.clients.map (·.id)).Nodup ∧ (∀ c ∈ cliWorld.clients, 
     (cliPostPoll cliWorld 1 cliEnvs).clients.map (·.fd) = [1001] := by decide +kernel
 
 end cliLedger
+
+/-! ## `--stdio` mode: the one client owns two descriptors -/
+
+section Stdio
+open Pm.Daemon Pm.Daemon.Stdio
+
+/-- **Termination while the `--stdio` client is served.**  Whatever state the client is in (a command in progress, output
+    queued, quit or not), the teardown that follows SIGTERM/SIGINT closes *both* its descriptors; and the devices are torn down
+    exactly as without a client (`teardown` of the same world with no clients). -/
+theorem C20_stdio_teardown (ofd : Nat) (w : W) (c : Cli) (h : c ∈ w.clients) :
+    s!"Y close {c.fd}" ∈ signalPassIO ofd w ∧ s!"Y close {ofd}" ∈ signalPassIO ofd w ∧
+    ∃ pre, signalPassIO ofd w = pre ++ teardown { w with clients := [] } := by
+  refine ⟨?_, ?_, ?_⟩
+  · unfold signalPassIO teardownIO
+    refine List.mem_append_right _ (List.mem_append_left _ (List.mem_flatMap.mpr ⟨c, h, ?_⟩))
+    exact List.mem_cons_self
+  · unfold signalPassIO teardownIO
+    refine List.mem_append_right _ (List.mem_append_left _ (List.mem_flatMap.mpr ⟨c, h, ?_⟩))
+    exact List.mem_cons_of_mem _ List.mem_cons_self
+  · unfold signalPassIO teardownIO
+    exact ⟨_, (List.append_assoc _ _ _).symm⟩
+
+/-- **When the client goes, both descriptors go**, on every path of `cli_post_poll` that destroys it (error bits on either
+    descriptor, `quit` with nothing in progress): `deadIO` is the only way a client record disappears from a pass. -/
+theorem C20_stdio_destroy_closes_both (ofd : Nat) (w : W) (c : Cli) :
+    (deadIO ofd w c).1.sys = w.sys ++ [Pm.Daemon.Sys.close c.fd, Pm.Daemon.Sys.close ofd] ∧ (deadIO ofd w c).2 = none := ⟨rfl, rfl⟩
+
+end Stdio
 
 end Pm.Props.C20
